@@ -242,10 +242,19 @@ def find(
             # These modify the file_platform instance, but we throw away
             # the active nodes after processing is complete.
             for include in e["include_files"]:
-                include_file = file_platform.find_include_file(
-                    include,
-                    os.path.dirname(e["file"]),
-                )
+                # The command's working directory has been tried when the
+                # database was loaded; a compiler then continues with the
+                # include directories, never with the source file's own.
+                if os.path.isabs(include):
+                    include_file = None
+                    if os.path.isfile(include):
+                        include_file = os.path.realpath(include)
+                else:
+                    include_file = file_platform.find_include_file(
+                        include,
+                        os.path.dirname(e["file"]),
+                        is_system_include=True,
+                    )
                 if include_file and not file_platform.process_include(
                     include_file,
                 ):
